@@ -35,6 +35,45 @@ var commonAssumptions = []string{
 func allChecks() []Check {
 	return []Check{
 		{
+			ID: "C01", Title: "Parsing is total: a tree or an error, never a crash, hang or half-built tree",
+			Runs: []HarnessRun{
+				{Harness: "VP_C01_bytes", Quick: map[string]int{"L": 3}, Thorough: map[string]int{"L": 4}, MustReach: []string{"C01/bytes/accepted", "C01/bytes/rejected"}, PanicLabel: "C01/bytes/no-panic"},
+			},
+			Bounds:      map[string]string{"bytes": "ParseSourceCode on every text of exactly L symbolic bytes (valid UTF-8 or not); quick L=3, thorough L=4; every path must end within the step budget (unwinding check)"},
+			Outside:     []string{"inputs longer than the bounds (64 KiB texts, deep nesting, long operator chains)", "running time proportional to input length"},
+			Assumptions: commonAssumptions,
+		},
+		{
+			ID: "C12", Title: "Numeric literals denote exactly the decimal number written",
+			Runs: []HarnessRun{
+				{Harness: "VP_C12_literals", Quick: map[string]int{"L": 4}, Thorough: map[string]int{"L": 6}, MustReach: []string{"C12/literals/wellformed", "C12/literals/malformed"}, PanicLabel: "C12/literals/no-panic"},
+			},
+			Bounds:      map[string]string{"literals": "every text of 1..L bytes over the alphabet {0-9 . e E + - _ a} that is exactly one literal candidate per the reference recogniser, in three syntactic positions (bare, [lit], 1?(lit):0); digits stay symbolic inside the class; quick L=4, thorough L=6"},
+			Outside:     []string{"literals longer than L bytes (40-digit parts)", "identifier characters other than 'a' directly after a literal (the class test IsIdentifierStart is C14's subject)"},
+			Assumptions: commonAssumptions,
+		},
+		{
+			ID: "C13", Title: "String literals round-trip every text through quoting and escaping",
+			Runs: []HarnessRun{
+				{Harness: "VP_C13_roundtrip", Quick: map[string]int{"L": 2}, Thorough: map[string]int{"L": 3}, MustReach: []string{"C13/roundtrip/done"}, PanicLabel: "C13/roundtrip/no-panic"},
+				{Harness: "VP_C13_open", Quick: map[string]int{"L": 2}, Thorough: map[string]int{"L": 3}, MustReach: []string{"C13/open/done"}, PanicLabel: "C13/open/no-panic"},
+			},
+			Bounds:      map[string]string{"roundtrip": "every text of 0..L symbolic bytes (incl. invalid UTF-8), both quote styles, every choice among the equivalent escape forms (verbatim, named, \\xHH, \\uHHHH, upper/lower hex) per character; quick L=2, thorough L=3", "open": "bodies of 0..L bytes without the delimiter/backslash, left open at end of input or at each of the five line-break code points"},
+			Outside:     []string{"texts longer than L bytes"},
+			Assumptions: commonAssumptions,
+		},
+		{
+			ID: "C14", Title: "Tokens tile the input; longest match; spacing is insignificant",
+			Runs: []HarnessRun{
+				{Harness: "VP_C14_tables", Quick: map[string]int{}, MustReach: []string{"C14/tables/done"}},
+				{Harness: "VP_C14_classes", Quick: map[string]int{}, MustReach: []string{"C14/classes/done"}},
+				{Harness: "VP_C14_scanstep", Quick: map[string]int{"L": 3}, Thorough: map[string]int{"L": 4}, MustReach: []string{"C14/scanstep/done"}, PanicLabel: "C14/scanstep/no-panic"},
+			},
+			Bounds:      map[string]string{"classes": "every code point 0..0x10FFFF (one symbolic 32-bit rune)", "scanstep": "one Scan() from every start position of every text of L symbolic bytes (inductive step: tiling for all texts of that size follows by induction over calls); quick L=3, thorough L=4"},
+			Outside:     []string{"contents of the ES5 identifier tables (no independent oracle)", "texts longer than the bound"},
+			Assumptions: commonAssumptions,
+		},
+		{
 			ID: "C15", Title: "Source ranges nest and re-parse; errors point at the right line and column",
 			Runs: []HarnessRun{
 				{Harness: "VP_C15_linecol", Quick: map[string]int{"L": 4}, Thorough: map[string]int{"L": 5}, MustReach: []string{"C15/linecol/done"}},
